@@ -47,4 +47,4 @@ EXPLORE = {'sim': (sim_cases(), execute_sim)}
 
 
 def run(ctx):
-    ctx.explore('sim', sim_cases(), execute_sim, n=ctx.pick(400, 25000))
+    ctx.explore('sim', sim_cases(), execute_sim, n=ctx.pick(1500, 25000))
